@@ -28,6 +28,7 @@ type EntryCfg struct {
 	CS               int            `json:"cs"`
 	CrashIsViolation bool           `json:"crash_is_violation"`
 	DeadlockIsViolation bool        `json:"deadlock_is_violation"`
+	DeadlockIsInfeasible bool       `json:"deadlock_is_infeasible"` // the harness forces schedules with gates: a forced order the code makes impossible blocks forever and is an infeasible schedule, not a finding
 	Params           map[string]int `json:"params"`
 	ThoroughParams   map[string]int `json:"thorough_params"`
 	Note             string         `json:"note"`
@@ -47,6 +48,7 @@ type CheckCfg struct {
 	Sinks     []string          `json:"sinks"`
 	InitPkgs  []string          `json:"init_pkgs"`
 	Redirects map[string]string `json:"redirects"`
+	CallHooks map[string]HookCfg `json:"call_hooks"` // harness functions run before / after a real function (same parameters, receiver first, no results)
 	SymbolicOnlyRedirects []string `json:"symbolic_only_redirects"` // redirects NOT applied in native replay (the harness handles the real function natively)
 	ZeroStubs []string          `json:"zero_stubs"` // functions replaced by "return zero values" (listed in the evidence)
 	Assumptions []string        `json:"assumptions"`
@@ -60,6 +62,26 @@ type CheckCfg struct {
 	Workers         int   `json:"workers"`
 	StrAlphabet     string `json:"str_alphabet"`
 	IntFormatDigits int    `json:"int_format_digits"` // >0: integers are formatted exactly (decimal digits) under the path assumption 0 <= x < 10^digits, instead of by an uninterpreted injective function
+}
+
+type HookCfg struct {
+	Before string `json:"before"`
+	After  string `json:"after"`
+}
+
+type hookPair struct{ before, after *ssa.Function }
+
+func (e *Engine) hookFor(fn *ssa.Function) *hookPair {
+	if v, ok := e.hookCache.Load(fn); ok {
+		hp, _ := v.(*hookPair)
+		return hp
+	}
+	var hp *hookPair
+	if h, ok := e.hooks[e.fnKey(fn)]; ok {
+		hp = h
+	}
+	e.hookCache.Store(fn, hp)
+	return hp
 }
 
 type fnClass int
@@ -83,6 +105,8 @@ type Engine struct {
 	target     *ssa.Package
 	intrinsics map[string]intrinsicFn
 	redirects  map[string]*ssa.Function
+	hooks      map[string]*hookPair
+	hookCache  sync.Map
 	initPkgs   map[string]bool
 	classCache sync.Map // *ssa.Function -> fnClass
 	buildMu    sync.Mutex
@@ -319,6 +343,21 @@ func (e *Engine) load() error {
 		}
 		e.redirects[from] = f
 	}
+	e.hooks = map[string]*hookPair{}
+	for k, h := range e.cfg.CallHooks {
+		hp := &hookPair{}
+		if h.Before != "" {
+			if hp.before = e.target.Func(h.Before); hp.before == nil {
+				return fmt.Errorf("hook %s not found in harness package", h.Before)
+			}
+		}
+		if h.After != "" {
+			if hp.after = e.target.Func(h.After); hp.after == nil {
+				return fmt.Errorf("hook %s not found in harness package", h.After)
+			}
+		}
+		e.hooks[k] = hp
+	}
 	e.nativeRedir = e.buildNativeRedirects(work)
 	for _, p := range e.nativeRedir.problems {
 		fmt.Fprintln(os.Stderr, "native redirect:", p)
@@ -505,7 +544,9 @@ func (e *Engine) explore(ent *EntryCfg, deadline time.Time) *EntryResult {
 					res.CrashMsgs[pr.Why]++
 				case "deadlock":
 					res.Deadlocks++
-					if len(res.Inconclusive) < 10 && !ent.DeadlockIsViolation {
+					if ent.DeadlockIsInfeasible {
+						res.Infeasible++
+					} else if len(res.Inconclusive) < 10 && !ent.DeadlockIsViolation {
 						res.Inconclusive = append(res.Inconclusive, "deadlock: "+pr.Why)
 					}
 				default:
